@@ -303,8 +303,12 @@ def run(ctx):
         r = vlib.rng(ctx.seed, f"C05/{ctx.tier}/{prof}")
         for k in range(n):
             progs.append({"name": f"{prof}{k}", "src": gen_prog.generate(r, prof), "profile": prof})
+    # constructs the clean tree rejects but a feature patch might accept: if accepted, Python's order applies
+    for k, sp in enumerate(gen_prog.syntax_programs()):
+        progs.append({"name": f"syntax{k}", "src": sp["src"], "profile": "syntax", "family": sp["family"], "body": sp["body"]})
     recs = compile_programs(ctx, progs)
     stat = Counter()
+    syntax_stat = {}
     reports = Counter()
     suppressed = Counter()
 
@@ -348,6 +352,11 @@ def run(ctx):
     # ---- part 2: model vs real order edges, spec vs real order edges, hypotheses on real logs
     work = []
     for p, rec in zip(progs, recs):
+        if p["profile"] == "syntax":
+            fam = syntax_stat.setdefault(p["family"], {"accepted": 0, "rejected": 0})
+            fam["accepted" if rec["ok"] else "rejected"] += 1
+            if not rec["ok"]:
+                continue
         if not rec["ok"]:
             stat["rejected:" + rec["error"].split(":")[0]] += 1
             if p["profile"] in ("straight", "effects") or p.get("origin"):
@@ -416,6 +425,26 @@ def run(ctx):
             stat["THEOREM-INSTANCE-FAILS"] += 1
             report("concl", "theorem-instance:" + key, "proof-broken", "order_edges_total evaluated on the model run of a real log is false",
                    {"program": key}, False)
+        # accepted program with syntax the clean tree rejects: helper calls must be in Python's order
+        if p["profile"] == "syntax":
+            helpers = {"call:" + h for h in gen_prog.SX_HELPERS}
+            skip = gen_prog.nested_body_calls(p["body"])
+            want = [l for l in gen_prog.python_order_by_execution(p["body"]) if l not in skip]
+            chain = block_chain_labels(rec)
+            if chain is None:
+                stat["syntax-accepted-not-single-block"] += 1
+                ctx.notes.append(f"syntax family {p['family']}: accepted but main is not a single block; order not compared: {p['body']!r}")
+            else:
+                got = [l for l in chain if l in helpers and l not in skip]
+                if got == want:
+                    stat["syntax-accepted-order-agrees"] += 1
+                else:
+                    stat["SYNTAX-ORDER-DIFFERS"] += 1
+                    report("syntax", "effects:" + key, "counterexample",
+                           "a newly accepted construct (" + p["family"] + ") does not evaluate its side effects in Python's order",
+                           {"program": key, "main_body": p["body"], "family": p["family"],
+                            "python_order_by_execution_under_cpython": want, "hugr_chain": got, "full_hugr_chain": chain,
+                            "replay": REPLAY_HUGR})
         # source order for straight-line programs
         if p["profile"] in ("straight", "effects"):
             try:
@@ -472,7 +501,7 @@ def run(ctx):
         distinct_nontrivial=nontrivial,
         rule="one evaluation = one program compiled by the real compiler and replayed through the Coq model (or one CFG run compared on call traces); non-trivial = at least two regions with a non-empty order-edge chain",
         traces_validated_against_impl=stat["agree"], order_edges=dict(stat),
-        violations_beyond_report_cap=dict(suppressed), source_order_effects_compared=n_effects_compared[0], regions_checked=n_regions, regions_with_effects=n_eff_regions, chain_length_histogram={str(k): v for k, v in sorted(chain_lengths.items())},
+        syntax_families_accepted_vs_rejected=syntax_stat, violations_beyond_report_cap=dict(suppressed), source_order_effects_compared=n_effects_compared[0], regions_checked=n_regions, regions_with_effects=n_eff_regions, chain_length_histogram={str(k): v for k, v in sorted(chain_lengths.items())},
         classification={"effect_names": gen["effect_names"], "std_rows": len(gen["rows"]), "ops_validated": len(names),
                         "predicate_shape": gen["predicate"]},
         samples=samples, fixed_programs=n_fixed, notes=ctx.notes, **cov_extra)
